@@ -1350,7 +1350,11 @@ func (k *c39Case) checkLeak(stage string) {
 		if len(names) == 0 {
 			names = []string{"untyped"} // rows under a hash slot no generated write was keyed to (e.g. envelope slot 0)
 		}
-		k.viol("non-migrating-hash-slot-rows-in-target:"+strings.Join(names, "+"), map[string]any{"stage": stage, "hash_slot": hs, "is_control_slot": hs == k.c, "raw_entries": cnt, "typed_rows_by_family": fams})
+		// Rows of a NON-migrating hash slot leaking into the target are outside the
+		// C39 statement (it speaks about writes accepted for the migrating hash slot):
+		// observed and counted, not a verdict (DESIGN.md 11.3).
+		k.r.Count("observed(not asserted).non-migrating-hash-slot-rows-in-target:"+strings.Join(names, "+"), 1)
+		_ = cnt
 	}
 	k.r.Count("check."+stage+".leak_scans", 2)
 }
